@@ -165,11 +165,129 @@ Proof.
 Qed.
 
 (* ------------------------------------------------------------------ ATT / SMP *)
+(* the item loops: stride >= 1 and guard >= 1, so fuel len + 1 - off is never used up *)
+Lemma item_loop_fuel_enough : forall fuel guard hdr stride data off,
+  (1 <= stride)%nat -> (1 <= guard)%nat -> (1 <= fuel)%nat -> (length data + 1 - off <= fuel)%nat ->
+  item_loop fuel guard hdr stride data off <> None.
+Proof.
+  induction fuel as [|f IH]; intros guard hdr stride data off Hs Hg H1 Hf.
+  - lia.
+  - cbn [item_loop]. destruct (off + guard <=? length data)%nat eqn:E; [|discriminate].
+    apply Nat.leb_le in E. destruct (off + hdr <=? length data)%nat; [|discriminate].
+    specialize (IH guard hdr stride data (off + stride)%nat Hs Hg ltac:(lia) ltac:(lia)).
+    destruct (item_loop f guard hdr stride data (off + stride)) as [[e|items]|]; try discriminate.
+    congruence.
+Qed.
+
+Lemma wrap_items_some : forall vals r, r <> None -> wrap_items vals r <> None.
+Proof. intros vals r H. destruct r as [[e|i]|]; [discriminate | discriminate | congruence]. Qed.
+
+Lemma item_loop_top : forall guard hdr stride data, (1 <= stride)%nat -> (1 <= guard)%nat ->
+  item_loop (item_fuel data) guard hdr stride data 0 <> None.
+Proof. intros. apply item_loop_fuel_enough; unfold item_fuel; lia. Qed.
+
+Lemma len_items_some : forall hdr len data, 0 <= len -> len_items hdr len data <> None.
+Proof.
+  intros hdr len data Hl. unfold len_items. destruct (len =? 0) eqn:E; [discriminate|].
+  apply Z.eqb_neq in E. apply item_loop_top; lia.
+Qed.
+
+(* [vals_ok]: integer field values are not negative (they are decoded bytes) *)
+Fixpoint vals_ok (vals : list fval) : bool :=
+  match vals with
+  | [] => true
+  | VInt v :: rest => (0 <=? v) && vals_ok rest
+  | _ :: rest => vals_ok rest
+  end.
+
+Lemma att_post_terminates : forall op vals, vals_ok vals = true -> att_post op vals <> None.
+Proof.
+  intros op vals Hok. unfold att_post.
+  destruct (op =? 5).
+  { destruct vals as [|[f|b|l] [|[f2|b2|l2] [|x r]]]; try discriminate.
+    apply wrap_items_some. destruct (f =? 1); apply item_loop_top; lia. }
+  destruct (op =? 7).
+  { destruct vals as [|[f|b|l] [|x r]]; try discriminate.
+    apply wrap_items_some. apply item_loop_top; lia. }
+  destruct (op =? 9).
+  { destruct vals as [|[f|b|l] [|[f2|b2|l2] [|x r]]]; try discriminate.
+    apply wrap_items_some. apply len_items_some. simpl in Hok. apply andb_true_iff in Hok.
+    destruct Hok as [H _]. apply Z.leb_le in H. exact H. }
+  destruct (op =? 17).
+  { destruct vals as [|[f|b|l] [|[f2|b2|l2] [|x r]]]; try discriminate.
+    apply wrap_items_some. apply len_items_some. simpl in Hok. apply andb_true_iff in Hok.
+    destruct Hok as [H _]. apply Z.leb_le in H. exact H. }
+  discriminate.
+Qed.
+
+Definition bytes_nonneg (data : list Z) : bool := forallb (fun b => 0 <=? b) data.
+
+Lemma le_int_nonneg : forall bs, bytes_nonneg bs = true -> 0 <= le_int bs.
+Proof.
+  unfold le_int. induction bs as [|b rest IH]; intros H; cbn [fold_right]; [lia|].
+  cbn [bytes_nonneg forallb] in H. apply andb_true_iff in H. destruct H as [H1 H2]. apply Z.leb_le in H1.
+  specialize (IH H2). lia.
+Qed.
+
+Lemma bytes_nonneg_skipn : forall n data, bytes_nonneg data = true -> bytes_nonneg (skipn n data) = true.
+Proof.
+  induction n; intros data H; [exact H|]. destruct data; [exact H|].
+  simpl in H. apply andb_true_iff in H. apply IHn. tauto.
+Qed.
+
+Lemma bytes_nonneg_firstn : forall n data, bytes_nonneg data = true -> bytes_nonneg (firstn n data) = true.
+Proof.
+  induction n; intros data H; [reflexivity|]. destruct data; [reflexivity|].
+  simpl in *. apply andb_true_iff in H. apply andb_true_iff. split; [tauto | apply IHn; tauto].
+Qed.
+
+Lemma parse_fields_vals_ok : forall fs data off vals o,
+  bytes_nonneg data = true -> parse_fields fs data off = inr (vals, o) -> vals_ok vals = true.
+Proof.
+  induction fs as [|f rest IH]; intros data off vals o Hb H.
+  - inversion H; subst. reflexivity.
+  - cbn [parse_fields] in H. destruct (parse_field data off f) as [e|[v size]] eqn:F; [discriminate|].
+    destruct (parse_fields rest data (off + size)) as [e|[vs1 o1]] eqn:P; [discriminate|].
+    inversion H; subst. specialize (IH data (off + size)%nat vs1 o Hb P).
+    destruct f; cbn [parse_field] in F.
+    + destruct (nth_error data off) eqn:N; [|discriminate]. inversion F; subst. cbn [vals_ok].
+      apply andb_true_iff. split; [|exact IH]. apply Z.leb_le.
+      apply nth_error_In in N. unfold bytes_nonneg in Hb. rewrite forallb_forall in Hb.
+      apply Hb in N. apply Z.leb_le in N. exact N.
+    + destruct (off + 2 <=? length data)%nat; [|discriminate]. inversion F; subst. cbn [vals_ok].
+      apply andb_true_iff. split; [|exact IH]. apply Z.leb_le. apply le_int_nonneg.
+      unfold slice. apply bytes_nonneg_firstn, bytes_nonneg_skipn. exact Hb.
+    + inversion F; subst. exact IH.
+    + inversion F; subst. cbn [vals_ok]. apply andb_true_iff. split; [|exact IH]. apply Z.leb_le.
+      apply le_int_nonneg. unfold slice. apply bytes_nonneg_firstn, bytes_nonneg_skipn. exact Hb.
+    + inversion F; subst. exact IH.
+    + discriminate.
+Qed.
+
+(* ATT_PDU.from_bytes never runs out of fuel *)
+Theorem att_from_bytes_terminates : forall table pdu,
+  bytes_nonneg pdu = true -> att_from_bytes table pdu <> POutOfFuel.
+Proof.
+  intros table pdu Hb. unfold att_from_bytes. destruct pdu as [|op rest]; [discriminate|].
+  destruct (lookup op table) as [fs|]; [|discriminate].
+  destruct (parse_fields fs (op :: rest) 1) as [e|[vals o]] eqn:P; [discriminate|].
+  pose proof (att_post_terminates op vals (parse_fields_vals_ok _ _ _ _ _ Hb P)).
+  destruct (att_post op vals) as [[e|v]|]; try discriminate. congruence.
+Qed.
+
+Lemma att_post_other : forall op vals, mem op att_post_classes = false -> att_post op vals = Some (inr vals).
+Proof.
+  intros op vals H. unfold att_post_classes, mem in H. cbn in H.
+  repeat (apply orb_false_iff in H; destruct H as [?H H]).
+  unfold att_post. rewrite H0, H1, H2, H3. reflexivity.
+Qed.
+
 Theorem att_too_short_is_error : forall table pdu op fs,
   hd_error pdu = Some op -> lookup op table = Some fs -> wf_fields fs = true ->
+  mem op att_post_classes = false ->
   ((length pdu < need fs 1)%nat <-> exists e, att_from_bytes table pdu = PErr e /\ (e = EIndex \/ e = EStruct)).
 Proof.
-  intros table pdu op fs Hhd Hl Hwf. destruct pdu as [|b rest]; [discriminate|].
+  intros table pdu op fs Hhd Hl Hwf Hpost. destruct pdu as [|b rest]; [discriminate|].
   inversion Hhd; subst. unfold att_from_bytes. rewrite Hl.
   pose proof (parse_fields_accepts_iff fs (op :: rest) 1%nat Hwf) as Hiff.
   destruct (parse_fields fs (op :: rest) 1) as [e|[vals o]] eqn:P.
@@ -177,9 +295,20 @@ Proof.
     + intros _. exists e. split; [reflexivity|]. eapply parse_fields_errors; eauto.
     + intros _. destruct (Nat.lt_ge_cases (length (op :: rest)) (need fs 1)); [assumption|].
       apply Hiff in H. destruct H; discriminate.
-  - split.
+  - rewrite (att_post_other op vals Hpost). split.
     + intros Hlt. exfalso. assert (need fs 1 <= length (op :: rest))%nat by (apply Hiff; eauto). lia.
     + intros [e [He _]]. discriminate.
+Qed.
+
+(* a Read By [Group] Type response whose length byte is too small for the item header is
+   rejected (struct.error) as soon as one item fits; with length 0 the loop is skipped *)
+Lemma item_loop_short_header : forall fuel guard hdr stride data,
+  (guard <= length data)%nat -> (length data < hdr)%nat ->
+  item_loop (S fuel) guard hdr stride data 0 = Some (inl EStruct).
+Proof.
+  intros fuel guard hdr stride data Hg Hh. cbn [item_loop]. cbn [Nat.add].
+  destruct (guard <=? length data)%nat eqn:E; [|apply Nat.leb_gt in E; lia].
+  destruct (hdr <=? length data)%nat eqn:E2; [apply Nat.leb_le in E2; lia | reflexivity].
 Qed.
 
 Theorem smp_too_short_is_error : forall table pdu code fs,
@@ -261,7 +390,7 @@ Section Sig.
     { rewrite (sig_short_is_error pdu Hs) in H. discriminate. }
     destruct (sig_from_bytes classes pdu) as [r i] eqn:E.
     pose proof (sig_ident pdu r i Hl E) as Hi. subst i.
-    destruct r; [discriminate| |]; apply dispatch_rejected in H; tauto.
+    destruct r; [discriminate| | |discriminate]; apply dispatch_rejected in H; tauto.
   Qed.
 
   (* a code with no handler method is always rejected, whatever its body *)
@@ -286,7 +415,7 @@ Section Sig.
     { rewrite (sig_short_is_error pdu Hs) in H. discriminate. }
     destruct (sig_from_bytes classes pdu) as [r i] eqn:E.
     pose proof (sig_ident pdu r i Hl E) as Hi. subst i.
-    destruct r; [discriminate| |]; unfold dispatch in H;
+    destruct r; [discriminate| | |discriminate]; unfold dispatch in H;
       destruct (mem code handled); try discriminate;
       destruct (handler code (ident_of pdu) _ st) as [[s1 o1] [|]]; inversion H; subst; eauto.
   Qed.
